@@ -155,6 +155,14 @@ Theorem nqp_is_maxdeg_plus_1 : forall ps,
 Proof. exact nqp_l. Qed.
 Print Assumptions nqp_is_maxdeg_plus_1.
 
+(* two-space (Petrov-Galerkin) forms: the maximum runs over the knot vectors of BOTH spaces *)
+Theorem nqp_covers_both_spaces : forall ps0 ps1,
+  Forall (fun p => p + 1 <= nqp_spaces ps0 ps1) ps0 /\
+  Forall (fun p => p + 1 <= nqp_spaces ps0 ps1) ps1 /\
+  (ps0 ++ ps1 <> [] -> exists p, (In p ps0 \/ In p ps1) /\ nqp_spaces ps0 ps1 = p + 1).
+Proof. exact nqp_spaces_l. Qed.
+Print Assumptions nqp_covers_both_spaces.
+
 (* gauss_rule: the weights mapped to (a,b) sum to b - a when the reference weights sum to 2 *)
 Theorem gauss_rule_weights : forall xw a b,
   Qeq (qsum (map snd xw)) (2 # 1) -> Qeq (qsum (map snd (gauss_interval xw a b))) (Qminus b a).
